@@ -99,6 +99,20 @@ func newMultiTermSearcherInternal(ctx context.Context, indexReader index.IndexRe
 	options search.SearcherOptions, limit bool) (
 	search.Searcher, error) {
 
+	// A term that survives only in deleted documents (until a merge drops
+	// it from the dictionary) has no live postings.  Leaving its searcher in
+	// would make the number of clauses, and with it every score, depend on
+	// the physical segment layout rather than on the index contents.
+	live := make([]search.Searcher, 0, len(searchers))
+	for _, s := range searchers {
+		if s.Count() == 0 {
+			_ = s.Close()
+			continue
+		}
+		live = append(live, s)
+	}
+	searchers = live
+
 	// build disjunction searcher of these ranges
 	searcher, err := newDisjunctionSearcher(ctx, indexReader, searchers, 0, options,
 		limit)
